@@ -8,6 +8,7 @@ REGISTRY = {
     'C02': ('verif.p_mc', 'run_c02'),
     'C03': ('verif.p_mc', 'run_c03'),
     'C04': ('verif.p_mc', 'run_c04'),
+    'C05': ('verif.p_mc', 'run_c05'),
     'C06': ('verif.p_mc', 'run_c06'),
     'C07': ('verif.p_mc', 'run_c07'),
     'C12': ('verif.p_graph', 'run_c12'),
